@@ -86,6 +86,9 @@ class C02(Prop):
                 if n == 2 and j % 4 == 0:
                     yield {"k": "rot", "kind": "list", "g": g[:1] + g[-1:], "qs": [1 + j % 2], "ins": allp, "dt": list(DTS[(j + 1) % 6]), "pkg": "py"}
                     yield {"k": "rot", "kind": "list", "g": g, "ins": allp, "dt": list(DTS[(j + 2) % 6]), "gdt": True, "pkg": "py"}
+        for n in (1, 2):
+            for j, g in enumerate(enum.herm(n)[::3]):
+                yield {"k": "rot", "kind": ("list", "poly", "pauli")[j % 3], "g": g, "ins": enum.paulis(n)[j % 2::2], "gro": True, "pkg": "py"}
         # (a3) lists of length 0 and 1
         for n in (1, 2, 3):
             for j, g in enumerate(enum.herm(n)[::5]):
@@ -195,6 +198,9 @@ class C02(Prop):
             rec["qs"] = qs
         try:
             G = be.pauli(g)
+            if scn.get("gro"):
+                be.freeze(G)                 # the generator is only read
+                rec["gro"] = True
             mk = mask_of(be, qs, n) if qs else None
             lay = scn.get("layout")
             if lay:
